@@ -173,6 +173,31 @@ def opContainerRead (j : Json) : Except String Json := do
       ("extra", Json.arr (info.extra.map fun b => match b with | some d => (toHex d : Json) | none => Json.null).toArray),
       ("compressed", toHex info.stream)])])
 
+def strList (j : Json) (k : String) : Except String (List String) := do
+  pure (← j.getObjValAs? (Array String) k).toList
+
+def opVersionSelect (j : Json) : Except String Json := do
+  let game ← j.getObjValAs? String "game"
+  let raw ← j.getObjValAs? String "raw"
+  let bj ← j.getObjVal? "bundled"
+  let b : Bundled := { defs := ← strList bj "defs", modules := ← strList bj "modules", controllers := ← strList bj "controllers" }
+  let (norm, res) : Json × Except Refusal Selection ←
+    match game with
+    | "wows" => let c := normWows raw; pure (toJson c, selectWows b c)
+    | "wowp" => let c := normWowp raw; pure (toJson c, selectWowp b c)
+    | "wot" => let v := normWot raw; pure (toJson v, selectWot b v)
+    | _ => throw s!"unknown game {game}"
+  match res with
+  | .ok s => pure (Json.mkObj [("norm", norm), ("ok", Json.mkObj [("controller", s.controller), ("defs", s.defs), ("newTable", s.newTable)])])
+  | .error r =>
+    let (k, v) : String × String := match r with
+      | .notSupportedController v => ("notSupportedController", v)
+      | .notSupportedDefs => ("notSupportedDefs", "")
+      | .importError => ("importError", "")
+      | .noControllerClass => ("noControllerClass", "")
+      | .invalidVersion => ("invalidVersion", "")
+    pure (Json.mkObj [("norm", norm), ("refused", k), ("v", v)])
+
 def opCodecDecode (st : State) (j : Json) : Except String Json := do
   let t ← getTy st j
   let h ← getNat j "h"
@@ -260,6 +285,7 @@ def dispatch (st : State) (op : String) (j : Json) : Except String (State × Jso
   | "play" => pureOp st (opPlay st j none)
   | "frame.parse" => pureOp st (opFrameParse j)
   | "container.read" => pureOp st (opContainerRead j)
+  | "version.select" => pureOp st (opVersionSelect j)
   | "codec.decode" => pureOp st (opCodecDecode st j)
   | "codec.decodeSeq" => pureOp st (opCodecDecodeSeq st j)
   | "codec.encode" => pureOp st (opCodecEncode st j)
